@@ -277,8 +277,52 @@ static std::string fabCase(const std::string& cmd, std::istringstream& is)
 // ------------------------------------------------------------------ the property oracle on histories
 // hist BC CF bs al endmode r1,r2,.. ops...     ops: a<p> | f<p>:<k> | i<p>:<m>:<r> | x<p> | m<d><s>
 struct LiveBlock { uintptr_t addr; ull serial; };
-template<size_t BC, size_t CF> static std::string histCase(std::istringstream& is)
+static unsigned fnv1a(const std::string& t) { unsigned h = 2166136261u; for (unsigned char ch : t) { h ^= ch; h *= 16777619u; } return h; }
+
+// canonical private state of one pool: buffer list (full part / free part), per-buffer free chain in chain order
+// (relative block indexes), cache in cache order, allocCount  -- compared with the Coq model PoolConc after every op
+template<class P> static std::string stateOf(P& pool)
 {
+	std::ostringstream o;
+	std::vector<Byte*> bufs; size_t headPos = 0;
+	Byte* head = pool.mFreeBufferHead;
+	if (head != nullptr)
+	{
+		Byte* left = head; size_t guard = 0;
+		while (pool.pvGetPrevBuffer(left) != nullptr && ++guard < 100000) left = pool.pvGetPrevBuffer(left);
+		for (Byte* b = left; b != nullptr && bufs.size() < 100000; b = pool.pvGetNextBuffer(b)) { if (b == head) headPos = bufs.size(); bufs.push_back(b); }
+	}
+	o << "F:"; for (size_t i = 0; i < headPos; ++i) o << (i ? "," : "") << gA.idOf(reinterpret_cast<uintptr_t>(bufs[i]));
+	o << " H:"; for (size_t i = headPos; i < bufs.size(); ++i) o << (i > headPos ? "," : "") << gA.idOf(reinterpret_cast<uintptr_t>(bufs[i]));
+	o << " B:";
+	for (Byte* b : bufs)
+	{
+		auto bytes = pool.pvGetBufferBytes(b); int first = pool.pvGetFirstBlockIndex(b);
+		o << gA.idOf(reinterpret_cast<uintptr_t>(b)) << "=" << int(bytes.freeBlockCount) << "[";
+		int8_t idx = bytes.firstFreeBlockIndex;
+		for (int i = 0; i < int(bytes.freeBlockCount); ++i)
+		{
+			o << (i ? "," : "") << (int(idx) - first);
+			idx = pool.pvGetNextFreeBlockIndex(pool.pvGetBlock(b, idx));
+		}
+		o << "]";
+	}
+	o << " K:";
+	void* c = pool.mCacheHead;
+	for (size_t i = 0; i < pool.mCachedCount; ++i)
+	{
+		Byte* buffer = nullptr; int8_t idx = pool.pvGetBlockIndex(static_cast<Byte*>(c), buffer);
+		o << (i ? "," : "") << gA.idOf(reinterpret_cast<uintptr_t>(buffer)) << "." << (int(idx) - int(pool.pvGetFirstBlockIndex(buffer)));
+		c = internal::MemCopyer::FromBuffer<void*>(c);
+	}
+	o << " n=" << pool.GetAllocateCount();
+	return o.str();
+}
+
+template<size_t BC, size_t CF> static std::string histCase(std::istringstream& is, bool trace = false)
+{
+	if (trace && BC == 1) return "n/a";
+	std::ostringstream tr; std::string lastRet = "-";
 	typedef Pool<BC, CF> P;
 	ull bs, al, endmode; std::string resStr;
 	is >> bs >> al >> endmode >> resStr;
@@ -330,6 +374,11 @@ template<size_t BC, size_t CF> static std::string histCase(std::istringstream& i
 			if (it != all.end() && it->first < a + B) fail("block overlaps a live block (above)");
 			if (it != all.begin()) { auto jt = std::prev(it); if (jt->first + B > a) fail("block overlaps a live block (below)"); }
 			if (!failure.empty()) return;
+			if (trace)
+			{
+				Byte* buffer = nullptr; int8_t idx = pools[p].pvGetBlockIndex(static_cast<Byte*>(blk), buffer);
+				lastRet = std::to_string(gA.idOf(reinterpret_cast<uintptr_t>(buffer))) + "." + std::to_string(int(idx) - int(pools[p].pvGetFirstBlockIndex(buffer)));
+			}
 			fill(a, serial); all[a] = serial; live[p].push_back({a, serial}); ++serial;
 			maxLive = std::max(maxLive, all.size());
 		};
@@ -394,7 +443,15 @@ template<size_t BC, size_t CF> static std::string histCase(std::istringstream& i
 			}
 			checkCounts();
 			if ((nOps & 31) == 0) { verifyAll(); checkLists(); }
+			if (trace && failure.empty())
+			{
+				std::string st = "P0 " + stateOf(pools[0]) + " P1 " + stateOf(pools[1]);
+				char hb[16]; snprintf(hb, sizeof hb, "%08x", fnv1a(st));
+				tr << lastRet << "#" << hb << " "; lastRet = "-";
+				if (is.rdbuf()->in_avail() <= 0 || is.peek() == EOF) tr << "| " << st;
+			}
 		}
+		if (trace && failure.empty() && nOps == 0) tr << "| P0 " << stateOf(pools[0]) << " P1 " << stateOf(pools[1]);
 		// the end game: every live block individually freeable, in an adversarial order
 		verifyAll(); checkLists();
 		if (failure.empty())
@@ -423,6 +480,7 @@ template<size_t BC, size_t CF> static std::string histCase(std::istringstream& i
 	if (failure.empty() && !gA.live.empty()) failure = "memory not returned: " + std::to_string(gA.live.size()) + " manager block(s) still owned after the pools were destroyed";
 	if (failure.empty() && gA.nAlloc != gA.nDealloc) failure = "manager Allocate/Deallocate counts differ";
 	if (failure.empty() && !gA.error.empty()) failure = gA.error;
+	if (trace) return failure.empty() ? tr.str() : "FAIL " + failure;
 	std::ostringstream o;
 	if (!failure.empty()) o << "FAIL " << failure;
 	else o << "ok ops=" << nOps << " maxlive=" << maxLive << " buffers=" << gA.nAlloc << " maxbuffers=" << maxBuffers << " merges=" << nMerge << " mergesnt=" << nMergeNontrivial << " ifs=" << nIf;
@@ -491,11 +549,17 @@ int main()
 				else out = DISPATCH(tvCase, bc, cf, cmd, is);
 			}
 			else if (cmd == "fabmg" || cmd == "fabmv" || cmd == "fabdel") out = forked([&] { return fabCase(cmd, is); });
+			else if (cmd == "tr")
+			{
+				ull bc, cf; is >> bc >> cf;
+				if (!(bc == 1 || bc == 2 || bc == 3 || bc == 31 || bc == 32 || bc == 127) || !(cf == 0 || cf == 1 || cf == 16)) out = "?";
+				else out = forked([&] { return DISPATCH(histCase, bc, cf, is, true); });
+			}
 			else if (cmd == "hist")
 			{
 				ull bc, cf; is >> bc >> cf;
 				if (!(bc == 1 || bc == 2 || bc == 3 || bc == 31 || bc == 32 || bc == 127) || !(cf == 0 || cf == 1 || cf == 16)) out = "?";
-				else out = forked([&] { return DISPATCH(histCase, bc, cf, is); });
+				else out = forked([&] { return DISPATCH(histCase, bc, cf, is, false); });
 			}
 			else if (cmd == "consts") out = std::to_string(ull(internal::UIntConst::maxAllocAlignment)) + " " + std::to_string(ull(internal::UIntConst::maxSize)) + " " + std::to_string(ull(sizeof(void*)));
 			else out = "?";
